@@ -32,6 +32,10 @@ def owners(op, clause, e=None, nbuf0=3):
         o |= {"C05", "C09"}              # the copy's stored size is not its extent
     if clause.startswith("alloc:") and e is not None and any(a[0] > nbuf0 for a in e.get("alloc", [])):
         o |= {"C20"}                     # an unpickled buffer handed out storage that is in use
+    if op == "set" and clause.startswith("read:view:"):
+        o |= {"C10"}                     # a view rebuilt from the bytes does not return what was just assigned: the assignment itself failed
+    if op == "copy" and clause.startswith(("ref:", "copy-ref:", "fmt:ref-", "fmt:union-", "fmt:null-union")):
+        o |= {"C08", "C09"}              # the references of a copy are references: valid, in their buffer, null stays null
     if op == "new" and (clause.startswith("read:") or clause.startswith("ref:new-target-value")):
         o |= {"C01"}          # a nested accessor of the object just built does not return the value it was built from
     return o
@@ -193,6 +197,14 @@ def prog_construct(w, rng, refs=True):
         if k is None:
             return
         keys.append(k)
+        if rng.random() < 0.3:
+            # the same type once more, its nested compound parts taken from existing objects and from nested parts (views) of
+            # the object just built, in either buffer
+            w.xobj_p = 0.6
+            k2 = w.new(tx, rng.randrange(2))
+            w.xobj_p = 0.12
+            if k2 is None:
+                return
         if rng.random() < 0.25:
             w.grow(rng.randrange(2))
         if rng.random() < 0.35:
@@ -263,6 +275,30 @@ def prog_copy(w, rng):
                     continue
             if w.set(side, allow=("null", "alias", "new")) is False and w.steps[-1].get("exc"):
                 return
+
+
+def prog_intlen(w, rng):
+    """C11 / C03: arrays with exactly ONE dynamic dimension (2-D and 3-D, every position of that dimension, scalar and struct
+    items, stand-alone and as a field), with live neighbours; then the integer (length) form with a number other than the
+    stored extent of that dimension - the total number of items above all - which must be refused and change nothing"""
+    i = w.index
+    nd = 2 + (i % 2)
+    dynax = (i // 2) % nd
+    ext = [rng.choice([2, 3]) for _ in range(nd)]
+    sh = [(-1 if a == dynax else ext[a]) for a in range(nd)]
+    order = list(range(nd))
+    if (i // 6) % 2:
+        rng.shuffle(order)
+    it = [X.sc(rng.choice(list(X.KINDS))), X.struct(X.sc("Int8"), X.sc("Float64"))][(i // 12) % 2]
+    tx = X.arr(it, sh, order)
+    if (i // 24) % 2:
+        tx = X.struct(X.sc("Int16"), tx, X.arr(X.sc("Int64"), [2]))
+    b = rng.randrange(2)
+    if w.new(tx, b, mindim=2) is None or w.new(pick_type(rng, False), b, mindim=1) is None:
+        return
+    for _ in range(3):
+        if not w.err("array-length", force="int"):
+            break
 
 
 ERR_KINDS = ["index-get", "index-set", "array-length", "string-too-long", "item-too-large", "union-non-member", "wrong-context", "offset-without-buffer"]
@@ -350,7 +386,21 @@ def prog_pickle(w, rng):
         if k is None:
             return
         keys.append(k)
-    group = [k for k in keys if rng.random() < 0.8] or keys[:1]
+    pair = []
+    if rng.random() < 0.3:
+        # a hybrid object that another hybrid object refers to (the DRESSED object was given as the referent), both in the group
+        b = rng.randrange(2)
+        ltx = rng.choice([X.struct(F64, I8, I16), X.struct(I8, X.STR, F64), X.struct(I64, X.arr(F64, [-1]))])
+        kl = w.new_hybrid(ltx, b)
+        if kl is not None:
+            w.forced = [("alias", kl[1], 0, w.handles[kl]["hybrid"])]
+            kh = w.new_hybrid(X.struct(I8, X.ref(ltx), X.STR, I64), b)
+            w.forced = None
+            if kh is None:
+                return
+            pair = [kh, kl] if rng.random() < 0.5 else [kl, kh]
+            keys += pair
+    group = [k for k in keys if k in pair or rng.random() < 0.8] or keys[:1]
     if rng.random() < 0.3:       # referents may be pickled as members of the group as well
         extra = [k for k in w.handles if k not in group and rng.random() < 0.3]
         group += extra
@@ -485,11 +535,11 @@ def prog_update(w, rng):
 PROGRAMS = {
     "C01": lambda w, rng: (prog_repeat if rng.random() < 0.2 else prog_construct)(w, rng),
     "C05": lambda w, rng: (prog_construct if rng.random() < 0.6 else prog_copy)(w, rng),      # copy-construction writes objects too
-    "C03": lambda w, rng: (prog_construct if rng.random() < 0.4 else prog_set)(w, rng),
+    "C03": lambda w, rng: (prog_intlen if rng.random() < 0.06 else prog_err if rng.random() < 0.1 else (prog_construct if rng.random() < 0.4 else prog_set))(w, rng),
     "C06": lambda w, rng: (prog_construct if rng.random() < 0.2 else (prog_view_copy if rng.random() < 0.2 else (prog_update if rng.random() < 0.2 else (prog_set if rng.random() < 0.6 else prog_copy))))(w, rng),
     "C10": lambda w, rng: (prog_update if rng.random() < 0.1 else prog_set)(w, rng),
-    "C08": lambda w, rng: (prog_repeat if rng.random() < 0.15 else prog_refs)(w, rng),
-    "C11": prog_err,
+    "C08": lambda w, rng: (prog_repeat if rng.random() < 0.15 else (prog_copy if rng.random() < 0.15 else prog_refs))(w, rng),
+    "C11": lambda w, rng: (prog_intlen if rng.random() < 0.06 else prog_err)(w, rng),
     "C20": prog_pickle,
     "C09": lambda w, rng: (prog_view_copy if rng.random() < 0.15 else (prog_update if rng.random() < 0.12 else prog_copy))(w, rng),
 }
@@ -680,7 +730,7 @@ def check(pid, argv=None):
             from . import heapgen
             models, res = heapgen.export(run)
             rng = random.Random(run.seed * 31 + 5)
-            want = {"C08": ("bind", "newholder", "writeref", "writeorig", "grow"), "C09": ("copy",), "C10": ("setplain", "writeorig", "writeref", "grow")}[pid]
+            want = {"C08": ("bind", "newholder", "writeref", "writeorig", "grow", "copy"), "C09": ("copy",), "C10": ("setplain", "writeorig", "writeref", "grow")}[pid]
             relevant = [m for m in models if sum(1 for ev in m["hist"] if ev["op"] in want) >= (2 if pid == "C08" else 1)]
             rng.shuffle(relevant)
             take = relevant[:heapgen.TIERS[run.tier]["sample"]]
